@@ -150,3 +150,24 @@ def libfunc_ap_cost(ctx, cone):
             "libfunc_instantiations_covered": len(set(cov)),
             "generic_libfuncs_covered": gen(cov), "generic_libfuncs_not_covered": gen(unc),
             "axioms": pr.get("axioms", [])}
+
+
+def run_shards(ctx, case_dir, workers=8, timeout=2400):
+    """As vlib.run_case_shards, with a bounded number of coqc processes (shared machine) and only
+    the libraries the case files need on the load path."""
+    import glob
+    from concurrent.futures import ThreadPoolExecutor
+    shards = sorted(glob.glob(os.path.join(case_dir, "*.v")))
+    q = ["-Q", os.path.join(vlib.COQ, "Base"), "Base", "-Q", os.path.join(vlib.COQ, "Spec"), "Spec"]
+
+    def one(p):
+        rc, out = vlib.run(["coqc", "-q", "-noglob"] + q + [p], cwd=case_dir, timeout=timeout)
+        ok = rc == 0 and re.search(r"^bad\s*=\s*\[\]", out, re.M) is not None
+        return (p, ok, out)
+
+    t = time.time()
+    with ThreadPoolExecutor(max_workers=workers) as ex:
+        res = list(ex.map(one, shards))
+    ctx.log("evaluated %d case shards in Coq with <= %d coqc (%.0fs), %d disagree" % (
+        len(res), workers, time.time() - t, sum(1 for r in res if not r[1])))
+    return res
